@@ -223,6 +223,16 @@ def main():
             wt = f'{d}/{pid}'
             worktree(wt)
             open(f'{d}/prompt_{pid}.txt', 'w').write(AUDIT_TMPL.format(wt=wt, id=pid, title=pr['title'], statement=pr['statement'], quant=pr['quantifier']['text'], extra=(LAB_NOTE if pid == "C20" else "") + note))
+    elif kind == "small3":
+        props = {json.loads(l)['id']: json.loads(l) for l in open('/verif/properties.jsonl')}
+        note = ("\n\nAdditional requirement for this round: `git log --oneline | grep fix:` lists recent repairs. At least THREE of your five commits must edit a function (or the very lines) "
+                "that one of those repairs touched - a new option next to the repaired code, an extra accepted input kind handled by the repaired branch, a changed message of the repaired guard, "
+                "extra validation around it - while keeping the repair's effect fully intact (the input the repair was made for must still behave as repaired).")
+        for g, (f, fu) in GROUPS.items():
+            wt = f'{d}/{g}'
+            worktree(wt)
+            txt = "\n\n".join(f"[{pid}] {props[pid]['title']}\nSTATEMENT: {props[pid]['statement']}\nQUANTIFIED OVER: {props[pid]['quantifier']['text']}" for pid in GROUP_PROPS[g])
+            open(f'{d}/prompt_{g}.txt', 'w').write(SMALL_TMPL.format(wt=wt, file=f, funcs=fu, props=txt, extra=(LAB_NOTE if g == "lab" else "") + note))
     elif kind == "small2":
         props = {json.loads(l)['id']: json.loads(l) for l in open('/verif/properties.jsonl')}
         for g, (f, fu) in GROUPS.items():
